@@ -418,4 +418,66 @@ theorem world_daily_backtest_invariants (w : World) (days : List RQ.Lemmas.World
     RQ.Lemmas.WorldE.CloseInv (w.run pre).1 ∧ RQ.Lemmas.WorldC.ReserveInv (w.run pre).1 :=
   RQ.Lemmas.WorldI.daily_backtest_invariants_prefix w days hc ho ha hf hv hwf hinv hi hids hs pre post hsplit
 
+
+/-! ### the executor model produces the day structure the world theorems assume -/
+
+/-- the system-side world input a published event stands for: PRE_BEFORE_TRADING → P (portfolio latch, accounts' morning), BEFORE_TRADING → B (broker),
+OPEN_AUCTION → A, BAR → R, AFTER_TRADING → T, SETTLEMENT → S; the other PRE_/POST_ brackets trigger nothing in the trading core -/
+inductive Skel | P | B | A | R | T | S
+deriving DecidableEq, Repr
+
+def skelOf (p : Pub) : Option Skel :=
+  match p.kind, p.part with
+  | .bt, .pre => some .P
+  | .bt, .main => some .B
+  | .auc, .main => some .A
+  | .bar, .main => some .R
+  | .at_, .main => some .T
+  | .st, .main => some .S
+  | _, _ => none
+
+theorem specDay_skeleton (d : Nat) : (specDay1d d).filterMap skelOf = [.P, .B, .A, .R, .T, .S] := by
+  unfold specDay1d split3
+  rfl
+
+/-- **the executor model publishes exactly the day structure**: for every list of distinct consecutive trading days, what `Executor.run` (model
+`execRun` fed by the daily event source) publishes is, on the system side, the word (P B A R T S) once per day — the shape of
+`RQ.Lemmas.WorldF.Day.inputs` with the strategy's calls left out, i.e. the hypothesis of `world_day_structure_keeps_books_quiet` and of the
+capstone `world_daily_backtest_invariants` -/
+theorem executor_publishes_the_day_structure (cal : List Nat) (d : Nat) (ds : List Nat) (hnd : (d :: ds).Pairwise (· ≠ ·))
+    (hl : PrevLinked cal (d :: ds)) (startDay : Nat) :
+    (execRun cal startDay ((d :: ds).getLast (by simp)) (source1d (d :: ds))).filterMap skelOf =
+      (d :: ds).flatMap (fun _ => [Skel.P, .B, .A, .R, .T, .S]) := by
+  rw [published_eq_spec_1d cal d ds hnd hl startDay]
+  unfold spec1d
+  generalize (d :: ds) = l
+  induction l with
+  | nil => rfl
+  | cons x xs ih =>
+    simp only [List.flatMap_cons, List.filterMap_append, specDay_skeleton, ih]
+
+/-- the system-side skeleton of a world day (`Day.inputs` without the strategy's calls) is the same word -/
+def skelOfIn : WIn → Option Skel
+  | .preBeforeTrading _ _ _ => some .P
+  | .beforeTrading => some .B
+  | .openAuction => some .A
+  | .bar => some .R
+  | .afterTrading => some .T
+  | .settlement => some .S
+  | _ => none
+
+theorem day_inputs_skeleton (d : RQ.Lemmas.WorldF.Day) (hc : d.CallsOnly) :
+    d.inputs.filterMap skelOfIn = [.P, .B, .A, .R, .T, .S] := by
+  have hcalls : ∀ l : List WIn, (∀ i ∈ l, RQ.Lemmas.WorldF.IsCall i) → l.filterMap skelOfIn = [] := by
+    intro l hl
+    induction l with
+    | nil => rfl
+    | cons i rest ih =>
+      have hi := hl i (by simp)
+      have hr := ih (fun j hj => hl j (by simp [hj]))
+      cases i <;> simp_all [skelOfIn, RQ.Lemmas.WorldF.IsCall]
+  have ha := hcalls d.aucCalls (fun i hi => hc i (by simp [hi]))
+  have hb := hcalls d.barCalls (fun i hi => hc i (by simp [hi]))
+  simp [RQ.Lemmas.WorldF.Day.inputs, List.filterMap_append, ha, hb, skelOfIn]
+
 end RQ.Props.C08
